@@ -18,6 +18,22 @@ CLAIMED = {
             "Exhaustive static comparison of the finite set of documented constants, defaults, preset recipes and embedded list entries with the source; preset behaviour reduces to C01/C02/C06 for the extracted recipe.",
             "Trusted: go/constant, go/ssa lowering of composite literals. Not decided: output distribution of presets as such.",
             "DESIGN.md section 3 C16"),
+    "C08": ("map-iteration-order independence rule (cross-key mutation => no carried state), additive-term ledger of Entropy() on the SSA value graph, EFF purity",
+            "Static decision that nothing NewWordList stores depends on map iteration order and that WLRecipe.Entropy() is the sum of exactly the documented terms under exactly the documented conditions; holds for all lists/orders/repetitions because it is a property of the code's dataflow.",
+            "Trusted: strings.Title pure, math.Log2, Go map-range semantics. Not decided: float32 rounding, numeric values.",
+            "DESIGN.md section 3 C08"),
+    "C10": ("SSA shape rules on the constructor: parameter read-only and not retained (EFF), keys-of-one-map provenance of kept words, documented-deletion-only, empty-list guard dominance, who-may-write WordList",
+            "Static decision of each structural clause of the normalisation; order/multiplicity independence follows from dedupe-by-map-keys plus the documented deletion and Title idempotence (trusted).",
+            "Trusted: strings.Title idempotent; Go map semantics. Not decided: value-level behaviour of Title on non-ASCII.",
+            "DESIGN.md section 3 C10"),
+    "C14": ("interprocedural effect/ownership analysis (write roots: local, fresh, parameter, global, captured) over SSA + VTA call graph",
+            "Shows that no API entry point can write memory shared between calls (receiver, arguments, globals, captured variables); a race needs such a write, so all interleavings are covered at once.",
+            "Trusted: golang-set thread-safe variant, read-only stdlib functions as listed, go/ssa model. Not decided: races inside dependencies; callers mutating shared recipes.",
+            "DESIGN.md section 3 C14"),
+    "C15": ("effect/ownership analysis + definite recomputation of computed fields before every read + hidden-input (ambient call / draw reachability) rules",
+            "Shows no state survives an API call and derived fields are re-derived before use, hence results depend only on current public fields and the bytes drawn in the call; covers all call sequences.",
+            "Trusted: as C14. Not decided: user-supplied separator functions; caller reassigning exported package variables.",
+            "DESIGN.md section 3 C15"),
 }
 
 NOT_APPLICABLE = {
